@@ -699,6 +699,19 @@ def compute_l2_key(
     l1_key = rk.l1_key
     l2 = rk.l2
     l2_key = rk.l2_key
+
+    # The keys can only be derived downwards, a seed key that does not cover
+    # the requested indexes (or indexes outside of the 0-31 range) would have
+    # the loops below never reach the requested value.
+    for idx in [l1, l2, request_l1, request_l2]:
+        if idx < 0 or idx > 31:
+            raise ValueError(f"Group key L1/L2 index {idx} is out of the valid range 0-31")
+
+    if request_l1 > l1 or (request_l1 == l1 and request_l2 > l2):
+        raise ValueError(
+            f"Seed key for L1 {l1} L2 {l2} cannot be used to derive the requested key L1 {request_l1} L2 {request_l2}"
+        )
+
     reseed_l2 = l2 == 31 or rk.l1 != request_l1
 
     # MS-GKDI 2.2.4 Group key Envelope
